@@ -122,7 +122,13 @@ def run(ctx):
             continue
         by_key = {}
         term_bad = None
-        for q in st.ok_paths():
+
+        def funds_helper(e):
+            # a helper the native-funds bookkeeping was moved into: takes the SentFunds record next to other things
+            # (the one-argument exact-match check itself stays a call)
+            t_ = e.target
+            return t_.arg_count >= 2 and any("SentFunds" in t_.locals[i + 1]["ty"] for i in range(t_.arg_count))
+        for q in splice(ix, st.ok_paths(), funds_helper, rounds=4):
             kind = None
             rest = []
             for (at, o, _b, _l) in q.conds:
